@@ -10,7 +10,11 @@ use std::sync::Mutex;
 use std::time::Instant;
 
 pub const DEFAULT_SEED: u64 = 20261001;
-pub const VERIF_DIR: &str = "/verif";
+/// Root of the verification tree: the driver exports PGSIM_VERIF_DIR (its own directory), so a
+/// snapshot started with `vp run` writes evidence and replays into the snapshot, not into /verif.
+pub fn verif_dir() -> String {
+    std::env::var("PGSIM_VERIF_DIR").unwrap_or_else(|_| "/verif".to_string())
+}
 
 #[derive(Clone, Debug)]
 pub struct Env {
@@ -266,7 +270,7 @@ pub struct Known {
 ///   `fixed: property=<id> <commit> <what failed>`        (suppresses nothing)
 pub fn load_known() -> Vec<Known> {
     let mut v = Vec::new();
-    if let Ok(s) = std::fs::read_to_string(format!("{}/known_findings.txt", VERIF_DIR)) {
+    if let Ok(s) = std::fs::read_to_string(format!("{}/known_findings.txt", verif_dir())) {
         for line in s.lines() {
             let line = line.trim();
             if let Some(rest) = line.strip_prefix("finding:") {
@@ -360,7 +364,7 @@ impl Report {
             "wall_s": (wall * 1000.0).round() / 1000.0,
             "violations": violations,
         });
-        let dir = format!("{}/evidence", VERIF_DIR);
+        let dir = format!("{}/evidence", verif_dir());
         let _ = std::fs::create_dir_all(&dir);
         let path = match part {
             None => format!("{}/{}.json", dir, self.property),
@@ -374,7 +378,7 @@ impl Report {
 }
 
 pub fn write_replay(v: &Violation, seed: u64, engine: &str) -> String {
-    let dir = format!("{}/replays", VERIF_DIR);
+    let dir = format!("{}/replays", verif_dir());
     let _ = std::fs::create_dir_all(&dir);
     let path = format!("{}/{}-{}-{}-{}.json", dir, v.property, engine, seed, v.run);
     let doc = json!({
